@@ -99,9 +99,14 @@ def extract(units, extra_roots=(), extra_args=()):
     outdir = os.path.join(FACTS_DIR, th)
     os.makedirs(outdir, exist_ok=True)
     # drop stale caches of other tree states (disk is limited)
-    for d in os.listdir(FACTS_DIR):
-        if d != th:
+    try:
+        os.utime(outdir, None)
+        ds = sorted((d for d in os.listdir(FACTS_DIR) if d != th),
+                    key=lambda d: os.path.getmtime(os.path.join(FACTS_DIR, d)), reverse=True)
+        for d in ds[3:]:
             subprocess.run(['rm', '-rf', os.path.join(FACTS_DIR, d)])
+    except OSError:
+        pass
     jobs = []
     outs = []
     for u in units:
